@@ -51,10 +51,17 @@ lookup extsingle useExtension { sub b by c; sub d by e; sub f by a; } extsingle;
 lookup extchain useExtension { sub [b c f] a' lookup single [d e]; } extchain;
 lookup extliga useExtension { sub e d by f_i; sub c a by b; } extliga;
 lookup filt { lookupflag UseMarkFilteringSet @marks; pos a acute -10; } filt;
-feature kern { lookup singlepos1; lookup singlepos2; lookup pair1; lookup pair2; lookup curs; lookup chainpos; lookup chainpossame; lookup filt; lookup extpair; lookup extsinglepos; } kern;
+# tables that are EQUAL in content to another one (the same rules written twice, first glyphs with identical pair lists):
+# a walk that recognises tables by their content rather than their identity would take them for one
+lookup pair1dup { pos a b -40; pos a c -41; pos d a -42; pos b e -43; } pair1dup;
+lookup pairtwins { pos a e -7; pos a f -8; pos c e -7; pos c f -8; pos b e -7; pos b f -8; } pairtwins;
+lookup singlepos1dup { pos a 30; pos b 30; pos c 30; } singlepos1dup;
+lookup chainsubdup { sub [a b] c' lookup single [d e]; sub e' lookup single a; } chainsubdup;
+lookup revdup { rsub [a b] c' [d e] by f; rsub a' by b; } revdup;
+feature kern { lookup singlepos1; lookup singlepos2; lookup pair1; lookup pair2; lookup curs; lookup chainpos; lookup chainpossame; lookup filt; lookup extpair; lookup extsinglepos; lookup pair1dup; lookup pairtwins; lookup singlepos1dup; } kern;
 feature mark { lookup mkbase; lookup mklig; } mark;
 feature mkmk { lookup mkmk; } mkmk;
-feature liga { lookup multi; lookup alt; lookup liga; lookup chainsub; lookup rev; lookup chainsame; lookup ctxsame; lookup revsame; lookup extsingle; lookup extchain; lookup extliga; lookup revmulti; lookup extrevmulti; } liga;
+feature liga { lookup multi; lookup alt; lookup liga; lookup chainsub; lookup rev; lookup chainsame; lookup ctxsame; lookup revsame; lookup extsingle; lookup extchain; lookup extliga; lookup revmulti; lookup extrevmulti; lookup chainsubdup; lookup revdup; } liga;
 table GDEF {
   GlyphClassDef [a b c d e f], [f_i], [acute grave dot], ;
   LigatureCaretByPos f_i 300;
